@@ -9,9 +9,22 @@
     candidate (id [arg::..]) extends [w] and is [--]+long/alias or [-]+cluster+short/alias of an
     argument of [cur]; a subcommand candidate (id [command::..]) extends [w] and is a name or alias
     of a subcommand of [cur].  [cand_resolves cur cd] says: the parser model's key map
-    ([get_long]/[get_short]) resp. [find_subcommand] resolve that spelling at [cur]. *)
+    ([get_long]/[get_short]) resp. [find_subcommand] resolve that spelling at [cur].
+
+    Round 2 (second half of the file): the engine against the PARSER model of Parse/Parser.v.
+    Names defined by both models ([DASH], [EQ], [to_short], ...) are the engine's when unqualified,
+    the parser's are written [Parser.x].  [same_level pc cur]: the parser's level [pc] and the engine's
+    level [cur] have the same arguments and the same subcommand names/aliases.  [opt_head pc idn a st] is
+    what the parser does at the start of an occurrence of [a] without attached value ([react] for a flag,
+    [parse_opt_value] for an option), [after_opt] how the token loop goes on after it, [occ_head pc a h]:
+    [h] ends in ValuesDone / Opt(a) / EqualsNotProvided(a) or in an error raised by a reaction (never an
+    unknown-token error), [tok_accepted]: an UnknownArgument/InvalidSubcommand error of the level is not
+    caused by the token (it is the error of the tokens after it; none if it is the last word). *)
 From ClapModel Require Import Base.Bytes Base.Machine Base.Utf8.
+From ClapModel Require Import Parse.Matcher Parse.Errors Parse.Validator Parse.Parser.
+From ClapModel Require Import ParseProofs.Spelling ParseProofs.ErrorSound.
 From ClapModel Require Import Parse.Cmd Parse.Build Parse.Valid Complete.EngineModel Complete.EngineProofs.
+From ClapModel Require Import Complete.EngineAccept Complete.EngineFuel Complete.EngineComplete Complete.EngineLevel.
 From ClapModel Require Gen.EngineSites.
 From Coq Require Import ZArith.
 Open Scope N_scope.
@@ -91,3 +104,256 @@ Theorem C18_hidden_kept_when_nothing_visible : forall raw,
   (forall x, In x raw -> cd_hidden x = true) -> finish raw = dedup_ids [] raw.
 Proof. exact hidden_kept_when_nothing_visible. Qed.
 Print Assumptions C18_hidden_kept_when_nothing_visible.
+
+(** * Round 2: the engine's lookups against the parser model *)
+
+(** "same argument", shorts: on a level that passed [assert_app] (and whose short aliases sit on options)
+    the engine's scan for a typed short flag IS the parser's key lookup *)
+Theorem C18_same_short : forall c ch, assert_app c = true -> short_aliases_on_options c ->
+  find_short_visible c ch = get_short c ch.
+Proof. exact same_short. Qed.
+Print Assumptions C18_same_short.
+
+(** "same argument", longs: whatever the engine resolves a typed [--flag] to, the parser's key map
+    resolves to the same argument ... *)
+Theorem C18_same_long_found : forall c flag o, assert_app c = true ->
+  find_long_visible c flag = Some o -> a_index o = None -> get_long c flag = Some o.
+Proof. exact same_long_found. Qed.
+Print Assumptions C18_same_long_found.
+
+(** ... and the two lookups are equal when every argument that carries aliases has a long name *)
+Theorem C18_same_long : forall c flag, assert_app c = true -> aliased_have_long c ->
+  find_long_visible c flag = get_long c flag.
+Proof. exact same_long. Qed.
+Print Assumptions C18_same_long.
+
+(** outside that class they differ: a visible alias of an option without long name is a key of the
+    parser that the engine's scan does not see *)
+Theorem C18_same_long_refuted : exists c flag,
+  assert_app c = true /\ find_long_visible c flag = None /\ get_long c flag <> None.
+Proof. exact same_long_refuted. Qed.
+Print Assumptions C18_same_long_refuted.
+
+(** Acceptance, parser side: the token loop standing where a new argument may start, given [--s] for
+    a long name or alias [s] of option [a]: [parse_long_arg] finds [a] and its occurrence starts *)
+Theorem C18_accept_long_step : forall c a s rest pos vaf st,
+  assert_app c = true -> In a (c_args c) -> a_index a = None -> In s (long_names a) ->
+  s <> [] -> ~ In EQ s -> utf8_valid s = true ->
+  possible_subcommand c (dd ++ s) vaf = None ->
+  parse_loop c ((dd ++ s) :: rest) (mkL PSValuesDone pos vaf false) st =
+  after_opt c rest pos (opt_head c ILong a st).
+Proof. exact accept_long_step. Qed.
+Print Assumptions C18_accept_long_step.
+
+(** ... given a cluster [-r] of known flags that take no value followed by the short name/alias of [a]
+    ([cluster_ok]; a single [-x] is the one-letter case): [parse_short_arg] reacts to every flag and
+    starts the occurrence of [a] *)
+Theorem C18_accept_cluster_step : forall c a r rest pos vaf st,
+  cluster_ok c r a -> List.hd 0 r <> Parser.DASH ->
+  possible_subcommand c (Parser.DASH :: r) vaf = None -> fs_skip st = 0 ->
+  (match get_pos c pos with Some p => a_negnum p | None => false end && Parser.sf_is_negative_number r) = false ->
+  parse_loop c ((Parser.DASH :: r) :: rest) (mkL PSValuesDone pos vaf false) st =
+  after_opt c rest pos (do x <- short_loop c (S (length r)) r PRNoArg vaf st; ROk (fst (fst x), snd (fst x)))
+  /\ occ_head c a (do x <- short_loop c (S (length r)) r PRNoArg vaf st; ROk (fst (fst x), snd (fst x))).
+Proof. exact accept_cluster_step_occ. Qed.
+Print Assumptions C18_accept_cluster_step.
+
+(** ... given a name or alias [n] of subcommand [sc]: [possible_subcommand] selects a name of [sc] (an
+    exact name wins also under prefix inference) and the loop stops with the dispatch to it *)
+Theorem C18_accept_sub_step : forall c sc n rest pos vaf st,
+  assert_app c = true -> In sc (c_subs c) -> aliases_to sc n = true -> utf8_valid n = true ->
+  (is_set s_args_negate_subs c && vaf) = false ->
+  exists n', aliases_to sc n' = true /\ find_subcommand c n' = Some sc /\
+    possible_subcommand c n vaf = Some n' /\
+    parse_loop c (n :: rest) (mkL PSValuesDone pos vaf false) st =
+    if beq n' s_help && negb (is_set s_disable_help_sub c) then ROk (LHelpSub rest st)
+    else ROk (LSub n' false vaf st rest).
+Proof. exact accept_sub_step. Qed.
+Print Assumptions C18_accept_sub_step.
+
+(** Acceptance theorem, options: every candidate with an option id that the engine offers in state
+    [ValueDone] at level [cur] (typed cluster made of flags of the level) is, for the parser model at the
+    same level [pc], the start of an occurrence of the argument with that id: the token loop equals
+    "occurrence head [h], then the remaining tokens" ... *)
+Theorem C18_option_candidate_step : forall tbl w cur pi l cd aid pc,
+  assert_app pc = true -> short_aliases_on_options pc -> same_level pc cur ->
+  complete_arg tbl w cur pi ValueDone = COk l -> In cd l -> cd_id cd = Some (IdArg aid) ->
+  typed_known cur w ->
+  exists a, In a (c_args pc) /\ a_id a = aid /\
+    (a_is_positional a = false -> names_wf a ->
+     forall pos vaf st, quiet_state pc (cd_value cd) pos vaf st ->
+       exists h, occ_head pc a h /\
+         forall rest, parse_loop pc (cd_value cd :: rest) (mkL PSValuesDone pos vaf false) st
+                      = after_opt pc rest pos h).
+Proof. exact option_candidate_step. Qed.
+Print Assumptions C18_option_candidate_step.
+
+(** ... hence the candidate never produces UnknownArgument / InvalidSubcommand *)
+Theorem C18_option_candidate_accepted : forall tbl w cur pi l cd aid pc,
+  assert_app pc = true -> short_aliases_on_options pc -> same_level pc cur ->
+  complete_arg tbl w cur pi ValueDone = COk l -> In cd l -> cd_id cd = Some (IdArg aid) ->
+  typed_known cur w ->
+  exists a, In a (c_args pc) /\ a_id a = aid /\
+    (a_is_positional a = false -> names_wf a ->
+     forall pos vaf st, quiet_state pc (cd_value cd) pos vaf st -> tok_accepted pc (cd_value cd) pos vaf st).
+Proof. exact option_candidate_accepted. Qed.
+Print Assumptions C18_option_candidate_accepted.
+
+(** Acceptance theorem, subcommands: every candidate with a subcommand id is a name/alias of that
+    subcommand of the parser's level, [possible_subcommand] selects it and the token loop stops with the
+    dispatch to it - no error at all *)
+Theorem C18_subcommand_candidate_accepted : forall tbl w cur pi l cd n pc,
+  assert_app pc = true -> same_level pc cur ->
+  complete_arg tbl w cur pi ValueDone = COk l -> In cd l -> cd_id cd = Some (IdCmd n) ->
+  exists sc, In sc (c_subs pc) /\ c_name sc = n /\ aliases_to sc (cd_value cd) = true /\
+    (utf8_valid (cd_value cd) = true -> forall rest pos vaf st, (is_set s_args_negate_subs pc && vaf) = false ->
+     exists n', aliases_to sc n' = true /\ find_subcommand pc n' = Some sc /\
+       possible_subcommand pc (cd_value cd) vaf = Some n' /\
+       parse_loop pc (cd_value cd :: rest) (mkL PSValuesDone pos vaf false) st =
+       if beq n' s_help && negb (is_set s_disable_help_sub pc) then ROk (LHelpSub rest st)
+       else ROk (LSub n' false vaf st rest)).
+Proof. exact subcommand_candidate_accepted. Qed.
+Print Assumptions C18_subcommand_candidate_accepted.
+
+(** * Round 2: totality without a fuel gap *)
+
+(** [Command::build] of the model never runs out of fuel: [depth c + 1] units suffice for every command
+    (the expanded help tree below a level is as deep as the level itself), a fortiori [2*depth+4] *)
+Theorem C18_build_full_enough : forall f c, (depth c + 1 <= f)%nat -> build_full f c <> BFuel.
+Proof. exact build_full_enough. Qed.
+Print Assumptions C18_build_full_enough.
+
+Theorem C18_build_no_fuel : forall c, build_full (build_fuel c) c <> BFuel.
+Proof. exact build_no_fuel. Qed.
+Print Assumptions C18_build_no_fuel.
+
+(** ... so the whole model never answers "out of fuel" (with C18_total: candidates, the plain
+    "no completion" error, or a command rejected by clap's own debug assertions - nothing else) *)
+Theorem C18_model_no_fuel : forall tbl c args i, complete_model tbl c args i <> CFuel.
+Proof. exact model_no_fuel. Qed.
+Print Assumptions C18_model_no_fuel.
+
+(** * Round 2: completeness for short options and for possible values *)
+
+(** every visible argument with a short name is represented (by its id, visibly) after the empty word,
+    [-], and every well-formed cluster [-xyz] of flags none of which takes a value ([short_word]);
+    [short_spelling a s]: [s] is the short name or a visible short alias of [a] *)
+Theorem C18_complete_shorts : forall tbl w c pi l a s,
+  complete_arg tbl w c pi ValueDone = COk l ->
+  In a (c_args c) -> a_hide a = false -> short_spelling a s -> short_word c w ->
+  exists y, In y l /\ cd_id y = Some (IdArg (a_id a)) /\ cd_hidden y = false.
+Proof. exact value_done_complete_short. Qed.
+Print Assumptions C18_complete_shorts.
+
+(** an option awaits a value (state [Opt o cnt], minimum not yet reached): every candidate is a DECLARED
+    possible value of [o] with its declared hidden flag, behind the already typed [a,b,] prefix, and
+    extends the word *)
+Theorem C18_value_candidates_sound : forall tbl w c pi o cnt l y,
+  complete_arg tbl w c pi (Opt o cnt) = COk l -> (opt_min o <? cnt) = false -> In y l ->
+  cd_id y = None /\ is_prefix w (cd_value y) = true /\
+  exists pre v pvs, possible_values tbl o = Some (Some pvs) /\ In (v, cd_hidden y) pvs /\ cd_value y = pre ++ v.
+Proof. exact opt_state_sound_values. Qed.
+Print Assumptions C18_value_candidates_sound.
+
+(** ... in any [Opt] state a candidate is a value candidate of [o] or (minimum reached) a candidate of
+    the state [ValueDone] *)
+Theorem C18_value_candidates_origin : forall tbl w c pi o cnt l y,
+  complete_arg tbl w c pi (Opt o cnt) = COk l -> In y l ->
+  (exists lv, complete_arg_value tbl w o = Some lv /\ In y lv) \/
+  ((opt_min o <? cnt) = true /\ exists more, complete_arg_value_done tbl w c pi = COk more /\ In y more).
+Proof. exact opt_state_sound_gen. Qed.
+Print Assumptions C18_value_candidates_origin.
+
+(** ... and every visible declared value extending the last element of the word is offered, with the
+    delimiter prefix kept ([a,b,<TAB>] -> [a,b,value]) *)
+Theorem C18_value_candidates_complete : forall tbl w c pi o cnt l pvs v pre v0,
+  complete_arg tbl w c pi (Opt o cnt) = COk l ->
+  possible_values tbl o = Some (Some pvs) -> In (v, false) pvs ->
+  utf8_valid v0 = true -> is_prefix v0 v = true ->
+  (pre = [] /\ v0 = w /\ rsplit_delimiter w (a_delim o) = None
+   \/ rsplit_delimiter w (a_delim o) = Some (pre, v0)) ->
+  In (mkCand (pre ++ v) None false) l.
+Proof. exact opt_state_complete. Qed.
+Print Assumptions C18_value_candidates_complete.
+
+(** the delimiter-prefix form: the split is after the LAST delimiter - the prefix ends with it, the rest
+    contains none *)
+Theorem C18_delimiter_prefix : forall w d pre v0, rsplit_delimiter w (Some d) = Some (pre, v0) ->
+  w = pre ++ v0 /\ exists p0, pre = p0 ++ utf8_encode d.
+Proof. exact rsplit_delimiter_some. Qed.
+Print Assumptions C18_delimiter_prefix.
+
+Theorem C18_delimiter_last : forall w d pre v0, rsplit_delimiter w (Some d) = Some (pre, v0) ->
+  forall x y, v0 <> x ++ utf8_encode d ++ y.
+Proof. exact rsplit_delimiter_last. Qed.
+Print Assumptions C18_delimiter_last.
+
+(** the word [--flag=<word>]: the candidates are [--flag=] + the value candidates of the argument whose
+    LONG NAME is [flag] (both directions) *)
+Theorem C18_long_value_sound : forall tbl c flag v l y,
+  flag <> [] -> ~ In EQ flag -> utf8_valid flag = true ->
+  complete_option tbl (dd ++ flag ++ EQ :: v) c = COk l -> In y l ->
+  exists a lv y0, List.find (has_long flag) (c_args c) = Some a /\
+    complete_arg_value tbl v a = Some lv /\ In y0 lv /\ y = add_prefix (dd ++ flag ++ [EQ]) y0.
+Proof. exact long_value_sound. Qed.
+Print Assumptions C18_long_value_sound.
+
+Theorem C18_long_value_complete : forall tbl c pi flag w l a pvs v pre v0,
+  complete_arg tbl (dd ++ flag ++ EQ :: w) c pi ValueDone = COk l ->
+  flag <> [] -> ~ In EQ flag -> utf8_valid flag = true ->
+  List.find (has_long flag) (c_args c) = Some a ->
+  possible_values tbl a = Some (Some pvs) -> In (v, false) pvs ->
+  utf8_valid v0 = true -> is_prefix v0 v = true ->
+  (pre = [] /\ v0 = w /\ rsplit_delimiter w (a_delim a) = None
+   \/ rsplit_delimiter w (a_delim a) = Some (pre, v0)) ->
+  In (mkCand ((dd ++ flag ++ [EQ]) ++ pre ++ v) None false) l.
+Proof. exact value_done_complete_long_value. Qed.
+Print Assumptions C18_long_value_complete.
+
+(** ... long names only: behind a visible alias [--alias=<TAB>] offers nothing although [--alias <TAB>]
+    offers the values (complete.rs: [a.get_long() == Some(flag)]) *)
+Theorem C18_long_alias_value_refuted : exists tbl c a alias v,
+    In a (c_args c) /\ In alias (vis_aliases (a_aliases a)) /\
+    possible_values tbl a = Some (Some [(v, false)]) /\
+    complete_arg_value_done tbl (dd ++ alias ++ [EQ]) c 1 = COk [] /\
+    start_walk c [[112]; dd ++ alias; []] 2 = WAt [] c 1 (Opt a 1) false /\
+    complete_arg tbl [] c 1 (Opt a 1) = COk [mkCand v None false].
+Proof. exact long_alias_value_refuted. Qed.
+Print Assumptions C18_long_alias_value_refuted.
+
+(** * Round 2: the level the engine completes at is the level the parser model reaches *)
+
+(** [lvl_rel pc cur]: the parser's node (built lazily: [build_self] at the root, [build_subcommand] on
+    dispatch) and the engine's node (a node of the tree built by [Command::build] = [build_full]) have the same
+    arguments and settings and pairwise related children.  Class: no node of the user's tree is built
+    already ([tree_all unb]; decidable: [unb_tree]).  The roots are related ... *)
+Theorem C18_level_root : forall f c0 b, tree_all unb c0 -> build_full f c0 = BOk b -> lvl_rel (build_self c0) b.
+Proof. exact level_root. Qed.
+Print Assumptions C18_level_root.
+
+(** ... related nodes are the same level in the sense of the acceptance theorems (same arguments, same
+    subcommand names and aliases) and have the same settings ... *)
+Theorem C18_level_same : forall pc cur, lvl_rel pc cur ->
+  same_level pc cur /\ forall f, is_set f pc = is_set f cur.
+Proof. exact (fun pc cur H => conj (lvl_rel_same_level pc cur H) (fun f => lvl_rel_is_set pc cur f H)). Qed.
+Print Assumptions C18_level_same.
+
+(** ... and a subcommand name or alias (of a subcommand not called [help]) typed where a new argument may
+    start moves BOTH machines to related nodes: the shadow parse descends ([shadow_step]), the parser's
+    token loop stops with the dispatch and [build_subcommand] builds the child *)
+Theorem C18_level_step_sub : forall pc cur tok sc0 pi, lvl_rel pc cur -> assert_app pc = true ->
+  utf8_valid tok = true -> find_subcommand pc tok = Some sc0 -> c_name sc0 <> s_help ->
+  exists es pc', shadow_step tok cur pi false ValueDone = SNext es 1 false ValueDone /\
+    build_subcommand pc (c_name sc0) = Some pc' /\ lvl_rel pc' es /\
+    forall rest pos vaf st, (is_set s_args_negate_subs pc && vaf) = false ->
+      exists n', aliases_to sc0 n' = true /\ find_subcommand pc n' = Some sc0 /\
+        Parser.parse_loop pc (tok :: rest) (Parser.mkL Parser.PSValuesDone pos vaf false) st =
+        if beq n' s_help && negb (is_set s_disable_help_sub pc) then Parser.ROk (Parser.LHelpSub rest st)
+        else Parser.ROk (Parser.LSub n' false vaf st rest).
+Proof. exact level_step_sub. Qed.
+Print Assumptions C18_level_step_sub.
+
+(** [build_self] does not read what [_build_subcommand] sets (bin name, display name) *)
+Theorem C18_build_self_names : forall b d x, build_self (setnm b d x) = setnm b d (build_self x).
+Proof. exact nm_build_self. Qed.
+Print Assumptions C18_build_self_names.
